@@ -147,7 +147,7 @@ def build_uod(log, hw):
             if writes is not None:
                 tag, val = writes
                 v = float(kv.get("number")) if val == "arg" else (float(it + 1) if val == "iter" else val)
-                cmd.context.tags[tag].set_value(v, cmd.context.tags[tag].tick_time or 0.0)
+                cmd.context.tags[tag].set_value(v, _VirtualTime.time())       # like the demo UOD: set_value(v, time())
             if complete_after is not None and it + 1 >= complete_after:
                 cmd.set_complete()
 
@@ -429,6 +429,8 @@ class EngineRun:
             kw["postM"] = self.snapshot()["mstate"]
             kw["postF"] = self.node_flags()
         self._ev("req", k=kind, res=res, exc=exc, **kw)
+        if self.tagtrace and self.tick_no >= 0:
+            self._log_tag_changes()          # a request can change tags between two ticks (engine time = the last tick)
         if kind == "edit":
             self._log_program()
         if kind == "inject" and res == "ok":
@@ -571,10 +573,11 @@ class EngineRun:
     def _log_tag_changes(self):
         ch = []
         for tag in self.engine._iter_all_tags():
-            v = num(tag.get_value())
+            v = num(tag.get_value()) + ("~sim" if getattr(tag, "simulated", False) else "")
             if self._tagvals.get(tag.name) != v:
+                simflip = self._tagvals.get(tag.name, "").endswith("~sim") != v.endswith("~sim")
                 self._tagvals[tag.name] = v
-                ch.append({"name": str(tag.name), "val": v})
+                ch.append({"name": str(tag.name), "val": v[:-4] if v.endswith("~sim") else v, "simflip": simflip})
         self._ev("tags", ms=milli(self.t) - milli(EPOCH), ch=ch)
 
     def report(self, snapshot=False):
